@@ -166,7 +166,7 @@ class Event(Expression):
         if event is Type.FALLING:
             return f"falling_edge({self._value.write(scope)})"
         if event is Type.BOTH_EDGES:
-            return f"rising_edge({self._value.write(scope)} or falling_edge({self._value.write(scope)})"
+            return f"rising_edge({self._value.write(scope)}) or falling_edge({self._value.write(scope)})"
         if event is Type.HIGH:
             return f"{self._value.write(scope)} = '1'"
         if event is Type.LOW:
